@@ -7,9 +7,9 @@ import traceback
 
 from . import vlib
 
-ENGINES = {
-    "C18": "eng_selections",
-}
+from .registry import PROPS
+
+ENGINES = {pid: p["engine"] for pid, p in PROPS.items()}
 
 
 def main():
